@@ -236,7 +236,11 @@ func (g *Grammar) Mutate(r *prng.R, toks []Token, nmut int) []Token {
 			continue
 		}
 		i := r.Intn(len(out))
-		switch r.Intn(5) {
+		switch r.Intn(7) {
+		case 5: // truncate: the input ends in the middle of a construct
+			out = out[:i]
+		case 6: // a foreign token deep inside, rest kept
+			out[i] = prng.Pick(r, alpha)
 		case 0: // delete
 			out = append(out[:i], out[i+1:]...)
 		case 1: // duplicate
